@@ -62,7 +62,7 @@ pub fn panic_text(e: &Box<dyn std::any::Any + Send>) -> String {
 }
 
 fn main() {
-    std::panic::set_hook(Box::new(|_| {}));
+    if std::env::var("AQV_PANIC_VERBOSE").is_err() { std::panic::set_hook(Box::new(|_| {})); }
     let args: Vec<String> = std::env::args().collect();
     let family = args.get(1).map(|s| s.as_str()).unwrap_or("");
     if family == "serve" {
